@@ -1050,7 +1050,7 @@ def suite_app_auth(tier, seed, backends=("sql", "kv"), n=None):
 # which property checks run which application-level suites (the assembled application is one more path on
 # which the property has to hold; the scenarios differ per property through the seed label)
 APP_SUITES = {
-    "C03": ["store"], "C06": ["store"], "C08": ["store"], "C13": ["store"], "C16": ["store", "lists"], "C19": ["store", "auth"],
+    "C03": ["store"], "C06": ["store"], "C08": ["store"], "C13": ["store"], "C16": ["store", "lists"], "C19": ["store", "auth", "limiter"],
     "C01": ["store"], "C14": ["auth"], "C15": ["auth"], "C18": ["limiter"], "C17": ["gc"], "C05": ["auth"], "C02": ["store"],
 }
 
